@@ -57,6 +57,12 @@ impl WriteAheadLog {
         Ok(wal)
     }
 
+    pub fn remove_last(&mut self, value_len: u64) -> Result<(), DbError> {
+        let size = self.file.seek(SeekFrom::End(0))?;
+        let new_size = size.saturating_sub(2 * u64::serialized_size_static() + value_len);
+        Ok(self.file.set_len(new_size)?)
+    }
+
     pub fn records(&mut self) -> Result<Vec<WriteAheadLogRecord>, DbError> {
         let mut records = Vec::<WriteAheadLogRecord>::new();
         let size = self.file.seek(SeekFrom::End(0))?;
